@@ -375,36 +375,44 @@ def gen_cases_m3(ctx):
     return cs
 
 
-def _check(ctx, cases, outs, m, seed, tag):
-    rng = ctx.subrng('model', tag)
-    reqs = [request(c, rng) for c in cases]
+def _check(ctx, groups):
+    """groups: list of (cases, outs, m, seed, tag); one Lean driver invocation for all of them"""
+    reqs = []
+    for cases, outs, m, seed, tag in groups:
+        rng = ctx.subrng('model', tag)
+        reqs += [request(c, rng) for c in cases]
     model = common.LeanDriver('Tools').run(reqs)
-    if not isinstance(model, common.DriverFailure):
-        model = [_tz_mask(c, ln) if c['fn'] == 'tz' else ln for c, ln in zip(cases, model)]
-    impl = [_tz_mask(c, o) if c['fn'] == 'tz' else o for c, o in zip(cases, outs)]
-    ctx.compare(f'bit-level building blocks ({tag})', impl, model, reqs)
-    for c, o in zip(cases, impl):
-        key = (tag, c['fn'], c.get('type'), c.get('mode'), c.get('a'), c.get('b'), c.get('n'), c.get('l'),
-               str(c.get('e')), c.get('fk'), c.get('integral'), tuple(c.get('x', ())), tuple(c.get('y', ())))
-        ctx.case(key)
-        ctx.count(c['fn'] + ('/' + c['type'] if c.get('type') else ''))
-        exp = expected(c)
-        if isinstance(o, str) and (o.startswith('RUN-ERROR') or o in ('PARTIES-DISAGREE', 'FLAG-MISMATCH')):
-            ctx.violation(f'real run failed: {o}', dict(c, kind='case', m=m, seed=seed, observed=o, expected=exp))
-            continue
-        if o != exp:
-            rep = dict(c, kind='case', m=m, seed=seed, observed=o, expected=exp)
-            ctx.violation(f"mpc {c['fn']} wrong on {({k: v for k, v in c.items() if k != 'fn'})}: observed {o}, "
-                          f"expected {exp}", rep)
+    pos = 0
+    for cases, outs, m, seed, tag in groups:
+        mdl = model
+        if not isinstance(model, common.DriverFailure):
+            mdl = [_tz_mask(c, ln) if c['fn'] == 'tz' else ln for c, ln in zip(cases, model[pos:pos + len(cases)])]
+        impl = [_tz_mask(c, o) if c['fn'] == 'tz' else o for c, o in zip(cases, outs)]
+        ctx.compare(f'bit-level building blocks ({tag})', impl, mdl, reqs[pos:pos + len(cases)])
+        pos += len(cases)
+        for c, o in zip(cases, impl):
+            key = (tag, c['fn'], c.get('type'), c.get('mode'), c.get('a'), c.get('b'), c.get('n'), c.get('l'),
+                   str(c.get('e')), c.get('fk'), c.get('integral'), tuple(c.get('x', ())), tuple(c.get('y', ())))
+            ctx.case(key)
+            ctx.count(c['fn'] + ('/' + c['type'] if c.get('type') else ''))
+            exp = expected(c)
+            if isinstance(o, str) and (o.startswith('RUN-ERROR') or o in ('PARTIES-DISAGREE', 'FLAG-MISMATCH')):
+                ctx.violation(f'real run failed: {o}', dict(c, kind='case', m=m, seed=seed, observed=o, expected=exp))
+                continue
+            if o != exp:
+                rep = dict(c, kind='case', m=m, seed=seed, observed=o, expected=exp)
+                ctx.violation(f"mpc {c['fn']} wrong on {({k: v for k, v in c.items() if k != 'fn'})}: observed {o}, "
+                              f"expected {exp}", rep)
 
 
 def run(ctx):
     cases = gen_cases(ctx)
-    outs = run_cases(cases, 1, ctx.seed)
-    _check(ctx, cases, outs, 1, ctx.seed, 'm=1')
     c3 = gen_cases_m3(ctx)
-    o3 = run_cases(c3, 3, ctx.seed + 1)
-    _check(ctx, c3, o3, 3, ctx.seed + 1, 'm=3')
+    with Pool(2) as top:      # m = 3 sample concurrently with the m = 1 sweep
+        r3 = top.apply_async(_run_batch, ((c3, 3, ctx.seed + 1),))
+        outs = run_cases(cases, 1, ctx.seed)
+        o3 = r3.get()
+    _check(ctx, [(cases, outs, 1, ctx.seed, 'm=1'), (c3, o3, 3, ctx.seed + 1, 'm=3')])
     seen = set()
     for c, o in zip(cases, outs):
         if c['fn'] not in seen and len(c.get('x', [1])) > 0:
